@@ -451,7 +451,9 @@ def _call(pool, o, rec, label):
         # must get what it would get alone
         import dask
         calls = [("ubm.acc_stats", lambda: pool.ubm.acc_stats(X[:4])),
-                 ("ubm.ll", lambda: pool.ubm.log_likelihood(X[:5]))]
+                 ("ubm.ll", lambda: pool.ubm.log_likelihood(X[:5])),
+                 ("ubm.ll2", lambda: pool.ubm.log_likelihood(X[2:7])),
+                 ("ubm.lwl", lambda: pool.ubm.log_weighted_likelihood(X[:3]))]
         mm = pool.models
         if "km" in mm and np.isfinite(np.asarray(mm["km"].centroids_)).all():
             calls.append(("km.predict", lambda: mm["km"].predict(X[:6])))
@@ -459,9 +461,15 @@ def _call(pool, o, rec, label):
             if fam in mm:
                 calls.append((fam + ".estimate_x", lambda fam=fam: mm[fam].estimate_x(sel)))
                 calls.append((fam + ".enroll", lambda fam=fam: mm[fam].enroll(sel)))
+                calls.append((fam + ".enroll_using_array", lambda fam=fam:
+                              mm[fam].enroll_using_array(X[:5])))
                 if zname in mm:
                     calls.append((fam + ".score", lambda fam=fam, zname=zname:
                                   mm[fam].score(mm[zname], sel)))
+                    calls.append((fam + ".score_using_array", lambda fam=fam, zname=zname:
+                                  mm[fam].score_using_array(mm[zname], [X[:4], X[4:8]])))
+                    calls.append((fam + ".score2", lambda fam=fam, zname=zname:
+                                  mm[fam].score(mm[zname], list(pool.stats[:3]))))
         if "iv" in mm:
             calls.append(("iv.project", lambda: mm["iv"].project(sel[0])))
         if "map" in mm:
